@@ -6,6 +6,8 @@ CONSTANTS
   Foreigns = FALSE
   Wraps = FALSE
   WrapMax = 0
+  ForeignVals <- ForeignValsQuick
+  ForeignBase <- ForeignBaseQuick
   WithAcc = FALSE
   ExportMode = "verdict"
 INVARIANT EmptyAccepts
